@@ -471,7 +471,7 @@ func (g *c03gen) untyped(d int) string {
 		for i := range args {
 			args[i] = sub()
 		}
-		return fmt.Sprintf("%s(%s)", g.pick("Fi", "Fs", "Ff", "Fv", "Fa", "Fb", "Mi", "Ms", "Mp", "Nope", "I", "Any", "Fx", "Fy", "Fn", "F2", "Mx", "Nf", "Fe", "Fg"), strings.Join(args, ", "))
+		return fmt.Sprintf("%s(%s)", g.pick("Fi", "Fs", "Ff", "Fv", "Fa", "Fb", "Mi", "Ms", "Mp", "Nope", "I", "Any", "Fx", "Fy", "Fn", "F2", "Mx", "Nf", "Fe", "Fg", "PFi"), strings.Join(args, ", "))
 	case 8:
 		n := g.rng.Intn(2)
 		args := make([]string, n)
@@ -727,7 +727,7 @@ func runC03(c *Ctx) {
 		ex  int
 	}{{"nil", 1}, {"Fs(1)", 0}, {"filter(Ints, {# > 1})", 0}, {"map(Ints, {# + 1})", 0}, {"MSI[1]", 0}, {"Ints[\"a\"]", 0},
 		{"My == 1", 0}, {"map(Ints, {nil})", 0}, {"Ff(+U64)", 0}, {"Fi(F64 + 1)", 0}, {"Arr[:]", 0}, {"len(Arr[1:2])", 0}, {"{(1): 2}", 0}, {"MSI[:]", 0}, {"F32 in MII", 0}, {"Any?.x", 1}, {"1 + 2", 2}, {"I8 + 1", 2}, {"F32 * 2", 3}, {"I", 3}, {"Str", 2}, {"B", 1}, {"I", 1},
-		{"Nf(1, 2)", 0}, {"Nf()", 0}, {"Fe(1)", 0}, {"Fe()", 0}, {"Fg(Sg)", 0}, {"Fg(Zs, Sg)", 0}, {"Fg()", 0}, {"Fx(1, \"a\")", 0}, {"Fx()", 0}, {"Fy(1)", 0}, {"Mx(1, 2)", 0}, {"Mx()", 0}, {"Fn()", 0}, {"F2()", 0}, {"Fx(Nope)", 0},
+		{"PFi(1)", 0}, {"PFi(I) + 1", 0}, {"PFi(\"a\")", 0}, {"PFi()", 0}, {"Nf(1, 2)", 0}, {"Nf()", 0}, {"Fe(1)", 0}, {"Fe()", 0}, {"Fg(Sg)", 0}, {"Fg(Zs, Sg)", 0}, {"Fg()", 0}, {"Fx(1, \"a\")", 0}, {"Fx()", 0}, {"Fy(1)", 0}, {"Mx(1, 2)", 0}, {"Mx()", 0}, {"Fn()", 0}, {"F2()", 0}, {"Fx(Nope)", 0},
 		{"len(PS)", 0}, {"PS[0]", 0}, {"PS[0:1]", 0}, {"1 in PS", 0}, {"all(PS, {# > 0})", 0}, {"filter(PS, {# > 0})", 0}, {"map(PS, {# + 1})", 0}, {"count(PS, {true})", 0},
 		{"len(PA)", 0}, {"PA[0]", 0}, {"PA[0:1]", 0}, {"1 in PA", 0}, {"any(PA, {# > 0})", 0}, {"none(PA, {# > 9})", 0}, {"one(PA, {# == 0})", 0}, {"PS[0] + PA[1]", 0}, {"len(PS[1:]) + len(PA[:2])", 0},
 		{"B ? Zs : Sg", 0}, {"B ? Sg : Zs", 0}, {"B ? Sg : Sg", 0}, {"Sg.String()", 0}, {"Zs.String()", 0}, {"PPSt.X", 0}, {"PPSt?.Y", 0},
